@@ -201,3 +201,18 @@ def has_dirichlet_or_robin(P):
             if e[s]['kind'] in ('D', 'R'):
                 return True
     return False
+
+
+def step_condition(P):
+    """2-norm condition number of the first implicit step's system (dense; small problems only)"""
+    m, BC, phi = build_var(P)
+    Q = dict(P)
+    if Q.get('scheme') == 'tvd':
+        Q['scheme'] = 'upwind'
+    A, _ = spatial_operator(m, Q)
+    Mb, _ = pf.boundaryConditionsTerm(phi.BCs)
+    T = Mb.toarray() + A + pf.transientTerm(phi, P['dt'], alpha_arg(m, P))[0].toarray()
+    try:
+        return float(np.linalg.cond(T))
+    except np.linalg.LinAlgError:
+        return float('inf')
